@@ -58,7 +58,7 @@ func (p *chainPool) all() []*chainInfo {
 }
 
 type job struct {
-	stream string // scn | recipe | recipe-time
+	stream string // scn | recipe | recipe-time | recipe-fwd
 	idx    int
 }
 
@@ -69,6 +69,8 @@ func runJob(c *verdict.Ctx, k sink, pool []*chainInfo, j job) {
 		sc = genRecipe(c.Rand("recipe", j.idx), j.idx, pool)
 	case "recipe-time":
 		sc = genTimeRecipe(c.Rand("recipe-time", j.idx), j.idx, pool)
+	case "recipe-fwd":
+		sc = genFwdRecipe(c.Rand("recipe-fwd", j.idx), j.idx, pool)
 	default:
 		sc = genScenario(c.Rand("scn", j.idx), j.idx, pool)
 	}
@@ -183,6 +185,13 @@ func jobList(c *verdict.Ctx, race bool) []job {
 	}
 	for i := 0; i < nrec/2; i++ {
 		jobs = append(jobs, job{"recipe-time", i})
+	}
+	nfwd := c.N(120, 2400)
+	if race {
+		nfwd = c.N(40, 240)
+	}
+	for i := 0; i < nfwd; i++ {
+		jobs = append(jobs, job{"recipe-fwd", i})
 	}
 	for i := 0; i < nrand; i++ {
 		jobs = append(jobs, job{"scn", i})
